@@ -179,6 +179,8 @@ def c11_cases(tier, seed):
     if tier != "quick":
         tilings += [("honeycomb_lattice", [8]), ("square_lattice", [7, 7]), ("hex_square_oct_lattice", [4]), ("tri_non_lattice", [4]),
                     ("square_lattice", [2, 9]), ("honeycomb_lattice", [12])]
+    # cells one site wide: a vertex is joined to its own periodic image (vertex paths only)
+    tilings += [("square_lattice", [1, 4]), ("square_lattice", [1, 5]), ("square_lattice", [4, 1]), ("square_lattice", [1, 3])]
     for name, args in tilings:
         cases.append({"family": "example", "name": name, "args": args})
     nv = 20 if tier == "quick" else 40
@@ -336,7 +338,11 @@ def eval_combo(ctx, case, lat, kind, metric, pairs, rng, label, maxits=None):
         margin = math.inf if mg == "N" else unhx(mg) / S
         if margin > MARGIN:
             stats["whole_path_compared"] += 1
-            if mnodes != nodes or medges != edges:
+            # the listed edge is fixed by the property only as "an edge joining the two consecutive nodes": where several
+            # edges join the same pair (parallel edges, two plaquettes sharing two sides) any of them is right
+            ktab = lat.edges.adjacent_plaquettes if kind == "plaq" else lat.edges.indices
+            same_link = lambda e1, e2: e1 == e2 or sorted(int(x) for x in ktab[e1]) == sorted(int(x) for x in ktab[e2])
+            if mnodes != nodes or len(medges) != len(edges) or not all(same_link(x, y) for x, y in zip(medges, edges)):
                 ctx.k_mismatch(f"{label}: {kind} {s}->{g} {metric} early={early}: model path {mnodes},{medges} != implementation {nodes},{edges} (margin {margin:.3g})", rcase)
         else:
             stats["near_tie_validity_cost_only"] += 1
@@ -373,10 +379,16 @@ def build_lattice(case):
         return None
     try:
         lat = Lattice(*arr)
-        lat.plaquettes
-        return lat
     except LatticeException:
         return None
+    try:
+        lat.plaquettes
+    except LatticeException:
+        # a cell one site wide: a vertex is joined to its own periodic image and the plaquette finder refuses the lattice;
+        # the vertex graph and path_between_vertices are still well defined (a regular tiling of the quantifier)
+        lat = Lattice(*arr)
+        lat._c11_no_plaquettes = True
+    return lat
 
 
 def evaluate(ctx, cases, label, all_pairs_max, n_random, only=None):
@@ -391,6 +403,9 @@ def evaluate(ctx, cases, label, all_pairs_max, n_random, only=None):
         # vertex graph is connected (tree-like lattices without plaquettes included, lead decision with fix 475bcae); the plaquette
         # graph of lattices with at least one plaquette whose plaquette-adjacency graph is connected
         for kind in ("plaq", "vert"):
+            if kind == "plaq" and getattr(lat, "_c11_no_plaquettes", False):
+                res.skip("plaquette-graph-not-defined(one-site-wide cell)")
+                continue
             n = lat.n_plaquettes if kind == "plaq" else lat.n_vertices
             if n == 0:
                 res.skip(f"no-{kind}-nodes")
